@@ -142,6 +142,20 @@ Print Assumptions C05_truncated_compressed_rejected.
 
 (* concrete, non-trivial instance: three arrays (lengths 5, 0, 9; block size 4 => 2 and 3 blocks, partial last
    block), big endian, UInt64 headers, appended base64; identity "compressor" *)
+(* cells of a .vtu regrouped per cell type (np.unique order), every cell with the corners between its own two offsets: for
+   EVERY cell list — cells of different types interleaved in the file, polygons with differing corner counts included *)
+Theorem C05_vtu_regroup_correct : forall cl : list (N * list N),
+  regroup_cells (file_connectivity cl) (file_offsets cl) (file_types cl)
+  = map (fun t => (t, cells_with_type t cl)) (unique_sorted (file_types cl)).
+Proof. exact vtu_regroup_correct. Qed.
+Print Assumptions C05_vtu_regroup_correct.
+
+Example C05_ragged_polygons :
+  let cl := [(7, [0; 1; 5; 4]); (5, [9; 9; 9]); (7, [1; 2; 5]); (7, [2; 3; 7; 8; 6])] in
+  regroup_cells (file_connectivity cl) (file_offsets cl) (file_types cl)
+  = [(5, [[9; 9; 9]]); (7, [[0; 1; 5; 4]; [1; 2; 5]; [2; 3; 7; 8; 6]])].
+Proof. vm_compute. reflexivity. Qed.
+
 Example C05_nonvacuous :
   let c := {| c_fmt := FAppB64; c_comp := Some 4; c_bo := BE; c_h := H64; c_hsep := false |} in
   let arrays := [[1; 2; 3; 254; 255]; [60; 62; 38; 95; 34; 10; 32; 0; 7]; [9]] in
